@@ -39,6 +39,7 @@ package types
 //@ property C20 C18
 //@ ensures inv20: err == nil ==> p.DepositTaxRate < MaxTaxBP && p.MinDepositAmount >= DustTxoutAmount && p.ConfirmationNumber >= 1
 //@ ensures magic_len: err == nil ==> len(p.DepositMagicPrefix) == DepositMagicLen
+//@ ensures [C18] tax_pair: err == nil ==> (p.DepositTaxRate > 0 ==> p.MaxDepositTax > 0 && p.MaxDepositTax <= 100000000) && (p.DepositTaxRate == 0 ==> p.MaxDepositTax == 0)
 //@ replay-assume p.NetworkName == "regtest"
 //@ modifies nothing
 //@ nopanic
